@@ -30,9 +30,14 @@ GE = gOffset (1 J/mol) on the fresh path (`getEq`, Thermodynamics.py 417) and â€
 code â€” with GE = 0 on the cached path (`_update_composition_sets`, 986).  The repaired code uses
 gOffset on both; `gOffsetFix = false` reproduces the shipped behaviour.
 
+`setMethod`: the repaired `setDrivingForceMethod` empties `_compset_cache_df` (the list cached there
+means [prec] to 'tangent' and [matrix, prec] to 'approximate'/'curvature'); the method itself is an
+argument of the `df` query in this model.
+
 Not modelled: `computeSearchDir=True` (curvatureFactor calling getDrivingForce itself),
 `local_phase_sampling_conditions` (held fixed), BinaryThermodynamics interfacial composition
-(stateless: one pycalphad workspace per call), impingementFactor.
+(stateless: one pycalphad workspace per call), impingementFactor, the switching of
+`phase_records.models` in `_setupSubModels`.
 -/
 namespace KawinV.CompSetCache
 
